@@ -59,9 +59,10 @@ def main():
             ids = all_ids
         else:
             ids = which.split(",")
-        code, out = sh(f"git apply {SEEDS}/{s}/patch.diff", REPO)
+        code, out = sh(f"git apply {SEEDS}/{s}/patch.diff 2>/dev/null || git apply --3way {SEEDS}/{s}/patch.diff", REPO)
         if code != 0:
             print(s, "patch does not apply:", out[:200])
+            sh("git reset -q HEAD -- . ; git checkout -- .", REPO)
             continue
         try:
             for pid in ids:
@@ -78,7 +79,7 @@ def main():
                 matrix.setdefault(s, {})[pid] = verdict
                 print(f"{s} x {pid}: {verdict} ({time.time() - t:.0f}s) {first[:120]}", flush=True)
         finally:
-            sh("git checkout -- .", REPO)
+            sh("git reset -q HEAD -- . ; git checkout -- . ; git clean -fdq src unimock_macros tests", REPO)
         if WRITE_META:
             json.dump(meta, open(meta_path, "w"), indent=1)
         json.dump(matrix, open(matrix_path, "w"), indent=1, sort_keys=True)
